@@ -551,3 +551,95 @@ def rf9m(run):
                       'the wrong location (and may swallow following code bytes as a displacement)'
                       % (bname, iname, sc, dname, mod, rm, '; '.join(problems)), line=f.line)
     run.min_instances(rule, 1000)
+
+
+# ---------------------------------------------------------------------------------------------
+# RF63: conversions lowered to a builtin call convert in one step
+# ---------------------------------------------------------------------------------------------
+
+CONV_C = {'I': ('int', 64, True), 'UI': ('int', 64, False), 'F': ('float', 32, None), 'D': ('float', 64, None), 'LD': ('float', 128, None)}
+
+
+def rf63(run):
+    import re
+    from lib import regions as R
+    rule = 'RF63'
+    run.rule(rule, 'x86-64 target_machinize: a conversion opcode lowered to a builtin call is passed unchanged to get_builtin, which has a case '
+                   'for it; the registered C helper takes the source C type of the opcode (uint64_t for UI2x, long double for LD2x) and '
+                   'returns `(result type) argument` with no intermediate type; the call writes the insn\'s own result operand (a conversion '
+                   'through a wider intermediate type rounds twice)')
+    tu = run.tu('gen')
+    m = tu.func('target_machinize')
+    g = tu.func('get_builtin')
+    run.functions_analysed.update({('gen', m.name), ('gen', g.name)})
+    CONV = re.compile(r'MIR_(UI|I|F|D|LD)2(I|F|D|LD)$')
+    msw = [s_ for s_ in R.find_switches(m) if F.src(s_['c'][0]) in ('code', 'insn->code')]
+    gsw = R.find_switches(g)
+    if not msw or not gsw:
+        raise F.AnalysisBroken('target_machinize / get_builtin: switch on the insn code not found')
+    gcases = {}
+    for r in R.switch_regions(g, gsw[0]):
+        for c in r['cases']:
+            if c[0]:
+                gcases[c[0]] = r
+    n = 0
+    for r in R.switch_regions(m, max(msw, key=lambda s_: len(R.switch_regions(m, s_)))):
+        calls = [x for x in R.region_nodes(r['stmts']) if x['k'] == 'CallExpr' and x.get('callee') == 'get_builtin']
+        labels = [c[0] for c in r['cases'] if c[0] and CONV.match(c[0])]
+        if not calls or not labels:
+            continue
+        # (b) the opcode and the result operand reach the builtin call unchanged
+        writes = []
+        for x in R.region_nodes(r['stmts']):
+            if x['k'] in ('BinaryOperator', 'CompoundAssignOperator') and x['op'] == '=' and F.src(F.strip(x['c'][0])) in ('code', 'res_reg_op', 'insn->ops[0]'):
+                writes.append(x)
+        a1 = F.src(F.strip(F.call_args(calls[0])[1]))
+        resinit = [d for x in R.region_nodes(r['stmts']) if x['k'] == 'DeclStmt' for d in x['decls'] if d['n'] == 'res_reg_op']
+        res_ok = bool(resinit) and resinit[0].get('init') is not None and F.src(F.strip(resinit[0]['init'])) == 'insn->ops[0]'
+        n += 1
+        ok = not writes and a1 in ('code', 'insn->code') and res_ok
+        run.ob(rule, ('lowering',), ok, {'codes': labels, 'get_builtin argument': a1, 'result operand': 'insn->ops[0]' if res_ok else '?',
+                                        'rewrites': [F.src(w)[:60] for w in writes]})
+        if not ok:
+            run.violation(rule, m, 'builtin lowering of %s' % '/'.join(labels), 'the lowering of %s %s: the builtin that runs is not the one-step '
+                          'conversion of the opcode (an intermediate type rounds twice, e.g. u64 -> double -> float)'
+                          % ('/'.join(labels), ('rewrites ' + '; '.join(F.src(w)[:50] for w in writes)) if writes else
+                             'passes `%s` to get_builtin / does not write insn->ops[0] directly' % a1), line=(writes[0] if writes else calls[0])['l'])
+        for lab in labels:
+            src_k, dst_k = CONV.match(lab).groups()
+            n += 1
+            gr = gcases.get(lab)
+            if gr is None:
+                run.ob(rule, ('helper', lab), False)
+                run.violation(rule, g, 'builtin of %s' % lab, '%s is lowered to a builtin call but get_builtin has no case for it (NDEBUG: the '
+                              'items stay NULL)' % lab, line=g.line)
+                continue
+            helpers = [F.strip(F.call_args(x)[-1]) for x in R.region_nodes(gr['stmts']) if x['k'] == 'CallExpr' and x.get('callee') == '_MIR_builtin_func']
+            if len(helpers) != 1 or helpers[0]['k'] != 'DeclRefExpr' or helpers[0]['n'] not in tu.funcs:
+                raise F.AnalysisBroken('get_builtin: helper of %s not identified' % lab)
+            h = tu.funcs[helpers[0]['n']]
+            run.functions_analysed.add(('gen', h.name))
+            pt = tu.type(h.params[0]['t']) if len(h.params) == 1 else None
+            rt = tu.type(h.ret)
+            desc = lambda t: None if t is None else (t.kind, t.w, t.signed if t.kind == 'int' else None)
+            want_p, want_r = CONV_C[src_k], CONV_C[dst_k]
+            rets = [x for x in h.walk() if x['k'] == 'ReturnStmt']
+            casts = []
+            direct = False
+            if len(rets) == 1 and len(F.kids(h.body)) == 1:
+                e = rets[0]['c'][0]
+                while e['k'] in F.CASTS or e['k'] == 'ParenExpr':
+                    if e['k'] in F.CASTS and e.get('ck') not in ('LValueToRValue', 'NoOp'):
+                        casts.append(desc(tu.type(e)))
+                    e = e['c'][0]
+                direct = e['k'] == 'DeclRefExpr' and e.get('dk') == 'param'
+            ok = desc(pt) == want_p and desc(rt) == want_r and direct and all(c == want_r for c in casts)
+            run.ob(rule, ('helper', lab), ok, {'opcode': lab, 'helper': h.name, 'parameter': pt.s if pt else None, 'returns': rt.s if rt else None,
+                                              'conversions in the body': casts})
+            if not ok:
+                run.violation(rule, h, 'helper of %s' % lab, 'the builtin %s registered for %s takes %s, returns %s and converts through %s: '
+                              'the opcode converts %s directly to %s' % (h.name, lab, pt.s if pt else '?', rt.s if rt else '?', casts or 'nothing recognisable',
+                                                                         want_p, want_r), line=h.line)
+    if n == 0:
+        raise F.AnalysisBroken('target_machinize: no conversion lowered to a builtin found')
+    return n
